@@ -52,8 +52,7 @@ def plan(tier):
         "for each filter in order `name-marker + name`, the description line iff the description is non-empty, then the "
         "content -- an exact text equality for sets of 0..2 filters (bounded in length, symbolic in all texts); the pending "
         "hash comments are reset to a fresh list at the start of every parse. L -- the loader: from_parser_result on top-level "
-        "commands carrying exactly the comment lines tosieve writes, with SYMBOLIC names and descriptions (any text, marker "
-        "look-alikes included): names, descriptions, order, content and enabled status are recovered exactly, `Unnamed rule N` "
+        "commands carrying exactly the comment lines tosieve writes, with SYMBOLIC names and descriptions (any text without the marker prefixes): names, descriptions, order, content and enabled status are recovered exactly, `Unnamed rule N` "
         "otherwise (10 shapes of up to 3 commands). PD.up -- Parser.__up moves the pending comments to the top-level command "
         "it records and leaves them pending inside a block. Bounded: seeded operation sequences (names "
         "with non-ASCII and marker look-alikes, descriptions, three marker pairs) saved, parsed, loaded with "
